@@ -78,7 +78,21 @@ def run_family(pid, tier, seed, cfg, n_quick, n_thorough, level_note, rule, theo
     tasks += [{"pid": pid, "seed": seed, "i": i, "cfg": cfg} for i in range(n)]
     results = run_tasks(eval_task, tasks)
     absorb(ck, pid, results, cfg, theorems_component)
+    search_failing_input(ck, pid, seed, cfg, n, theorems_component)
     return ck.finish(info, level_note, rule)
+
+
+def search_failing_input(ck, pid, seed, cfg, n, component):
+    """DESIGN §5: the correspondence broke but no oracle failed on the worlds of this run — look
+    further for an input on which the property itself fails on the implementation (more seeded
+    worlds, oracle evaluated on each) before reporting no-failing-input-found"""
+    if not ck.disagreements or ck.violations:
+        return
+    before = len(ck.disagreements)
+    extra = run_tasks(eval_task, [{"pid": pid, "seed": seed + 7919, "i": i, "cfg": cfg} for i in range(min(4 * n, 3000))])
+    absorb(ck, pid, extra, cfg, component)
+    ck.extra["failing_input_search"] = {"extra_worlds": len(extra), "found": len(ck.violations),
+                                        "disagreements_before": before, "disagreements_after": len(ck.disagreements)}
 
 
 def absorb(ck, pid, results, cfg, component):
